@@ -383,7 +383,12 @@ func (w *advWorld) buildProduct(c advCase) (world.ClientSpec, advVerdict, bool) 
 			protos = append(protos, fp...)
 		}
 	}
-	protos = append(protos, "h2")
+	// an unrelated protocol name, behind the request's entries (where the library's dialer puts extras) or in front of them
+	if w.ownSeq.Load()%2 == 0 {
+		protos = append(protos, "h2")
+	} else {
+		protos = append([]string{"h2"}, protos...)
+	}
 	switch c.Pref {
 	case "valid":
 		id := w.curID
